@@ -1,6 +1,6 @@
 use num::pow::Pow;
 
-use crate::generator::error::GeneratorError;
+use crate::{common::INTERNAL_EXTENSION_GROUP_NAME_PREFIX, generator::error::GeneratorError};
 
 use super::{
     types::{BitString, Choice, Optionality, SequenceOrSet},
@@ -92,6 +92,15 @@ pub fn format_sequence_or_set_members(se: &SequenceOrSet) -> String {
         }}"#,
         se.members
             .iter()
+            // the components of an extension addition group are members of the object itself
+            .flat_map(|m| match &m.ty {
+                ASN1Type::Sequence(group)
+                    if m.name.starts_with(INTERNAL_EXTENSION_GROUP_NAME_PREFIX) =>
+                {
+                    group.members.iter().collect::<Vec<_>>()
+                }
+                _ => vec![m],
+            })
             .map(|m| format!(
                 r#"{}{}: {},"#,
                 to_jer_identifier(&m.name),
